@@ -117,7 +117,9 @@ class VCSStrategyGit(VCSStrategy):
             "-z",
         ]
         result = execute_command(command, _LOGGER, cwd=self.root)
-        all_files = result.stdout.decode("utf-8").split("\0")
+        # File names are bytes to Git; decode them the way os.walk() does, so
+        # that names which are not UTF-8 compare equal as well.
+        all_files = os.fsdecode(result.stdout).split("\0")
         # With --directory, Git does not list ignored files that live inside
         # of an untracked directory which also contains non-ignored files.
         # List every ignored file individually as well.
@@ -130,7 +132,7 @@ class VCSStrategyGit(VCSStrategy):
             "-z",
         ]
         result = execute_command(command, _LOGGER, cwd=self.root)
-        all_files += result.stdout.decode("utf-8").split("\0")
+        all_files += os.fsdecode(result.stdout).split("\0")
         return {Path(file_) for file_ in all_files}
 
     def _find_submodules(self) -> set[Path]:
